@@ -60,12 +60,19 @@ class ResponseCheck:
                 b = z3.BitVec(s.fresh('vs'), 8)
                 if ty == 'Characters':
                     ex.solver.add(z3.Or(in_range(b, 65, 90), in_range(b, 48, 57)))
-                elif i >= 2 or n < 2:
+                elif i >= 3 or n < 2 or (i == 2 and n < 3):
                     ex.solver.add(z3.ULT(b, 128))
                 bs.append(b)
             if ty != 'Characters' and n >= 2:
-                # the first two bytes: two ASCII characters or one 2-byte UTF-8 sequence (non-ASCII text must survive too)
-                ex.solver.add(z3.Or(z3.And(z3.ULT(bs[0], 128), z3.ULT(bs[1], 128)), z3.And(in_range(bs[0], 0xC2, 0xDF), in_range(bs[1], 0x80, 0xBF))))
+                # the first bytes: ASCII characters, or one 2-byte UTF-8 sequence, or (n >= 3) one 3-byte sequence (non-ASCII text must
+                # survive too, and byte offsets differ from character offsets behind it)
+                two = z3.And(in_range(bs[0], 0xC2, 0xDF), in_range(bs[1], 0x80, 0xBF))
+                asc = z3.And(z3.ULT(bs[0], 128), z3.ULT(bs[1], 128))
+                if n >= 3:
+                    three = z3.And(in_range(bs[0], 0xE1, 0xEC), in_range(bs[1], 0x80, 0xBF), in_range(bs[2], 0x80, 0xBF))
+                    ex.solver.add(z3.Or(z3.And(asc, z3.ULT(bs[2], 128)), z3.And(two, z3.ULT(bs[2], 128)), three))
+                else:
+                    ex.solver.add(z3.Or(asc, two))
             if ty == 'Characters':
                 return Adt('Characters', None, [mk_str(bs)]), ('chars', bs)
             if ty.startswith('heapless::String<'):
